@@ -97,3 +97,63 @@ def _walk_eval(node):
     yield node
     for c in ast.iter_child_nodes(node):
         yield from _walk_eval(c)
+
+
+def position_table_view(fnode):
+    """A rule-level VIEW (not a behaviour-preserving rewrite): a position table of a sequence,
+
+        P = {x: j for j, x in enumerate(S)}         (P bound once in the function)
+
+    is the ordering of S held in another form.  In the returned copy `P[e]` reads `S.index(e)`, `e in P` reads `e in S`
+    and `for x, j in P.items()` reads `for j, x in enumerate(S)`, so that the rules that follow the ROLE of the ordering (which
+    sequence defines the columns / positions) see one spelling.  The two agree exactly when the elements of S are pairwise
+    distinct, which is what the layer lists of the graph constructions are; the rules only use which sequence is
+    consulted, not the value."""
+    import copy
+    stores = {}
+    for n in ast.walk(fnode):
+        if isinstance(n, ast.Name) and isinstance(n.ctx, ast.Store):
+            stores[n.id] = stores.get(n.id, 0) + 1
+    table = {}
+    for n in ast.walk(fnode):
+        if isinstance(n, ast.Assign) and len(n.targets) == 1 and isinstance(n.targets[0], ast.Name) and \
+                isinstance(n.value, ast.DictComp) and len(n.value.generators) == 1 and not n.value.generators[0].ifs:
+            g = n.value.generators[0]
+            if isinstance(g.iter, ast.Call) and norm(g.iter.func) == 'enumerate' and len(g.iter.args) == 1 and \
+                    isinstance(g.iter.args[0], (ast.Name, ast.Subscript, ast.Attribute)) and \
+                    isinstance(g.target, ast.Tuple) and len(g.target.elts) == 2 and \
+                    norm(g.target.elts[0]) == norm(n.value.value) and norm(g.target.elts[1]) == norm(n.value.key) and \
+                    stores.get(n.targets[0].id) == 1:
+                table[n.targets[0].id] = g.iter.args[0]
+    if not table:
+        return fnode, {}
+
+    class V(ast.NodeTransformer):
+        def visit_Subscript(self, node):
+            self.generic_visit(node)
+            if isinstance(node.value, ast.Name) and node.value.id in table and isinstance(node.ctx, ast.Load):
+                c = ast.Call(func=ast.Attribute(value=copy.deepcopy(table[node.value.id]), attr='index', ctx=ast.Load()),
+                             args=[node.slice], keywords=[])
+                return ast.fix_missing_locations(ast.copy_location(c, node))
+            return node
+
+        def visit_Compare(self, node):
+            self.generic_visit(node)
+            if len(node.ops) == 1 and isinstance(node.ops[0], (ast.In, ast.NotIn)) and \
+                    isinstance(node.comparators[0], ast.Name) and node.comparators[0].id in table:
+                node.comparators = [ast.copy_location(copy.deepcopy(table[node.comparators[0].id]), node.comparators[0])]
+                ast.fix_missing_locations(node)
+            return node
+
+        def visit_For(self, node):
+            self.generic_visit(node)
+            it = node.iter
+            if isinstance(it, ast.Call) and isinstance(it.func, ast.Attribute) and it.func.attr == 'items' and not it.args and \
+                    isinstance(it.func.value, ast.Name) and it.func.value.id in table and \
+                    isinstance(node.target, ast.Tuple) and len(node.target.elts) == 2:
+                node.target = ast.Tuple(elts=[node.target.elts[1], node.target.elts[0]], ctx=ast.Store())
+                node.iter = ast.Call(func=ast.Name(id='enumerate', ctx=ast.Load()),
+                                     args=[copy.deepcopy(table[it.func.value.id])], keywords=[])
+                ast.fix_missing_locations(node)
+            return node
+    return V().visit(copy.deepcopy(fnode)), {k: norm(v) for k, v in table.items()}
